@@ -145,6 +145,16 @@ theorem bm_corrects_t2 (c : BchInst) (hc : c ∈ Generated.C03B.instances) (hd :
   have f := BCHBound.facts_of_ok c (C03.bch_ok c hc)
   exact roundtrip c.G c.R f.hunit msg (by rwa [f.hGl])
 
+/-- the root search is exact for ANY error set: a coefficient list that evaluates like `∏_{l ∈ E} (1 + α^l x)` makes it return exactly
+the positions in `E` (so for t ≥ 3 what remains unproved is only that the tabular recursion produces that polynomial) -/
+theorem bm_root_search_exact (c : BchInst) (hc : c ∈ Generated.C03B.instances) (E : Finset Nat) (hE : ∀ l ∈ E, l < c.n) (sig : List Nat) :
+    haveI := (BCHBound.facts_of_ok c (C03.bch_ok c hc)).good
+    (∀ x : GF.Elt c.P, Kaira.BM.evalList c.P sig x.val =
+        (∏ l ∈ E, (1 + BCHBound.alpha (BCHBound.facts_of_ok c (C03.bch_ok c hc)) ^ l * x)).val) →
+      Kaira.BM.locate c.P c.n sig = (List.range c.n).filter (fun j => decide (j ∈ E)) := by
+  haveI := (BCHBound.facts_of_ok c (C03.bch_ok c hc)).good
+  exact BMProofs.locate_exact (BCHBound.facts_of_ok c (C03.bch_ok c hc)) E hE sig
+
 /-- code words are left untouched for every `t` within the design distance -/
 theorem bm_no_error (c : BchInst) (hc : c ∈ Generated.C03B.instances) (t : Nat) (ht : 2 * t < c.delta) (msg : Nat) :
     Kaira.BM.correct c.P c.m t c.n (encode c.G msg) = encode c.G msg :=
